@@ -42,6 +42,42 @@ def canon(t):
     return tuple(canon(x) if isinstance(x, tuple) else x for x in t)
 
 
+def expand(t, limit=48):
+    """Distribute phi / gphi / opt / when out of arithmetic: the list of
+    join-free alternatives of a value (bounded)."""
+    if not isinstance(t, tuple) or not t:
+        return [t]
+    k = t[0]
+    if k == "phi":
+        out = []
+        for x in t[1:]:
+            out += expand(x, limit)
+        return _dedup(out)[:limit]
+    if k == "gphi":
+        return _dedup(expand(t[2], limit) + expand(t[3], limit))[:limit]
+    if k == "opt":
+        return _dedup(expand(t[1], limit) + expand(t[2], limit))[:limit]
+    if k == "when":
+        return expand(t[2], limit)
+    if k in ("bin", "neg", "call", "nt", "tuple", "list"):
+        parts = [[x] if not isinstance(x, tuple) else expand(x, limit) for x in t]
+        out = [()]
+        for p in parts:
+            out = [o + (x,) for o in out for x in p]
+            if len(out) > limit:
+                out = out[:limit]
+        return _dedup(out)
+    return [t]
+
+
+def _dedup(xs):
+    out = []
+    for x in xs:
+        if x not in out:
+            out.append(x)
+    return out
+
+
 def unwhen(t):
     """(conditions, value) of a guarded value."""
     if isinstance(t, tuple) and t and t[0] == "when":
@@ -382,6 +418,15 @@ def to_rat(t, namer=None, clip_atoms=None):
             if clip_atoms is not None:
                 clip_atoms[name] = inner
             return Rat(Poly.atom(name))
+    if k == "call" and t[1] in ("max", "min") and len(t) == 4:
+        cs = [x for x in t[2:] if x[0] == "const" and isinstance(x[1], (int, float))]
+        o = [x for x in t[2:] if x[0] != "const"]
+        if len(cs) == 1 and len(o) == 1:
+            try:
+                inner = to_rat(o[0], namer, clip_atoms)
+                return Rat(Poly.atom(f"{t[1]}({cs[0][1]}, {inner!r})"))
+            except NotPolynomial:
+                pass
     return Rat(Poly.atom(namer(t)))
 
 
